@@ -1944,4 +1944,143 @@ theorem pull_final (env : Env) (hat : env.atomicMan = true) (reg : Digest → Op
     · simp only [h1, Bool.false_eq_true, ↓reduceIte, Bool.false_and, cond_false]
       exact noMan_get hdl n'
 
+
+/-! ### the repeated pull succeeds (prune configuration): no debris ⇒ every download and the verification succeed -/
+
+theorem get_apply_mv_src (src dst : Path) (h : src ≠ dst) (st : Store) : get (apply (.mv src dst) st) src = none := by
+  simp only [apply]
+  cases hs : get st src with
+  | none => exact hs
+  | some c => simp [get_set, get_del, h]
+
+theorem noDebris_after (d : Digest) (st : Store) (hdeb : NoPullDebris st) (S : List Effect)
+    (hf : WritesIn (DlFoot d) S) (hR : get (run S st) (.part d 0) = none) :
+    NoPullDebris (run (S ++ [.mv (.pfile d) (.blob d)]) st) := by
+  intro d'
+  rw [run_append]
+  simp only [run]
+  constructor
+  · by_cases hd : d' = d
+    · subst hd; exact get_apply_mv_src _ _ (by intro h; cases h) _
+    · rw [get_apply_of_not_written (by simp [writes]; exact hd), get_run_of_writesIn hf (dlFoot_other hd).1]
+      exact (hdeb d').1
+  · intro k'
+    rw [get_apply_of_not_written (by simp [writes])]
+    by_cases hdk : Path.part d' k' = Path.part d 0
+    · rw [hdk]; exact hR
+    · rw [get_run_of_writesIn hf]
+      · exact (hdeb d').2 k'
+      · intro hfoot
+        rcases hfoot with h | h | h | ⟨_, h⟩
+        · cases h
+        · exact hdk h
+        · cases h
+        · cases h
+
+theorem download_noDebris (env : Env) (k : Nat) (d : Digest) (data : Bytes) (st : Store) (hdeb : NoPullDebris st) :
+    (download env k d data st).ok = true ∧ NoPullDebris (run (download env k d data st).effs st) := by
+  unfold download
+  dsimp only
+  simp only [(hdeb d).2 0]
+  by_cases hz : data.length = 0
+  · simp only [hz, ↓reduceIte, true_and]
+    apply noDebris_after d st hdeb _ (dlFoot_touch_ftr d 0)
+    rw [get_run_of_not_written (by intro e he; simp at he; rcases he with rfl | rfl <;> simp [writes])]
+    exact (hdeb d).2 0
+  · simp only [hz, ↓reduceIte, true_and]
+    apply noDebris_after d st hdeb
+    · exact writesIn_append (writesIn_append (writesIn_append (writesIn_append
+        (dlFoot_writePart env k d _) (dlFoot_touch_ftr d _)) (dlFoot_pwrites d 0 _))
+        (dlFoot_writePart env (k + 1) d _)) (dlFoot_rm d)
+    · rw [run_append]; simp [run, apply, get_del]
+
+
+theorem downloads_ok (env : Env) (reg : Digest → Option Bytes) (k : Nat) (ds : List Digest) (st : Store)
+    (htot : ∀ d ∈ ds, (reg d).isSome = true) (hdeb : NoPullDebris st) :
+    (downloads env reg k ds st).1.ok = true := by
+  induction ds generalizing st k with
+  | nil => rfl
+  | cons d rest ih =>
+    unfold downloads
+    have hrest : ∀ d' ∈ rest, (reg d').isSome = true := fun d' h => htot d' (List.mem_cons_of_mem _ h)
+    split
+    · exact ih _ st hrest hdeb
+    · cases hr : reg d with
+      | none => have := htot d (by simp); simp [hr] at this
+      | some data =>
+        have hd := download_noDebris env k d data st hdeb
+        simp only [hd.1, ↓reduceIte]
+        have := ih (k + 2) (run (download env k d data st).effs st) hrest hd.2
+        cases hX : downloads env reg (k + 2) rest (run (download env k d data st).effs st) with
+        | mk b v => rw [hX] at this; exact this
+
+theorem downloads_fresh_sub (env : Env) (reg : Digest → Option Bytes) (k : Nat) (ds : List Digest) (st : Store) :
+    ∀ x ∈ (downloads env reg k ds st).2, x ∈ ds := by
+  induction ds generalizing st k with
+  | nil => intro x hx; simp [downloads] at hx
+  | cons d rest ih =>
+    unfold downloads
+    split
+    · intro x hx; exact List.mem_cons_of_mem _ (ih _ _ x hx)
+    · split
+      · intro x hx; simp at hx
+      · rename_i data _
+        dsimp only
+        split
+        · cases hX : downloads env reg (k + 2) rest (run (download env k d data st).effs st) with
+          | mk b v =>
+            intro x hx
+            simp only [List.mem_cons] at hx ⊢
+            rcases hx with rfl | hx
+            · exact Or.inl rfl
+            · have := ih (k + 2) (run (download env k d data st).effs st) x
+              rw [hX] at this
+              exact Or.inr (this hx)
+        · intro x hx; simp at hx
+
+theorem verify_ok (env : Env) (ds : List Digest) (st : Store) (h : BlobInv env.hash st)
+    (hp : ∀ d ∈ ds, present st (.blob d) = true) : (verify env ds st).ok = true := by
+  induction ds with
+  | nil => rfl
+  | cons d rest ih =>
+    unfold verify
+    have hpd := hp d (by simp)
+    unfold present at hpd
+    cases hg : get st (.blob d) with
+    | none => simp [hg] at hpd
+    | some c =>
+      obtain ⟨bs, rfl, hh⟩ := h d c hg
+      simp only [hh, ↓reduceIte]
+      exact ih (fun d' hd' => hp d' (List.mem_cons_of_mem _ hd'))
+
+/-- From a store without download debris, with an honest registry that serves every layer of the
+manifest, the pull succeeds. -/
+theorem pull_ok {hash : Bytes → Digest} (env : Env) (henv : env.hash = hash)
+    (hchunk : ∀ bs, (env.chunk bs).flatten = bs)
+    (reg : Digest → Option Bytes) (hreg : ∀ d data, reg d = some data → hash data = d)
+    (n : Name) (m : Man) (htot : ∀ l ∈ m.all, (reg l.digest).isSome = true)
+    (st : Store) (hinv : Inv hash st) (hdeb : NoPullDebris st) :
+    (pull env reg n m st).ok = true := by
+  have htot' : ∀ d ∈ m.all.map Layer.digest, (reg d).isSome = true := by
+    intro d hd; obtain ⟨l, hl, rfl⟩ := List.mem_map.mp hd; exact htot l hl
+  have hds := downloads_spec env henv hchunk reg hreg 0 (m.all.map Layer.digest) st
+    (fun d _ _ data _ => hdeb.partOK d data)
+  have hok := downloads_ok env reg 0 (m.all.map Layer.digest) st htot' hdeb
+  have hsub := downloads_fresh_sub env reg 0 (m.all.map Layer.digest) st
+  unfold pull
+  dsimp only
+  cases hX : downloads env reg 0 (m.all.map Layer.digest) st with
+  | mk dl fresh =>
+    rw [hX] at hds hok hsub
+    simp only at hds hok hsub ⊢
+    have hinv1 : Inv hash (run dl.effs st) := seq_preserves_inv hinv hds.1
+    have hv : (verify env fresh (run dl.effs st)).ok = true :=
+      verify_ok env fresh _ (henv ▸ hinv1.1) (fun d hd => hds.2.2 hok d (hsub d hd))
+    rw [andThen_ok, andThen_ok, andThen_ok, hok, hv, writeManifest_ok, cleanupPull_ok]
+    rfl
+
+theorem noDebris_prune (st : Store) : NoPullDebris (prune st) := by
+  intro d
+  refine ⟨?_, fun k => ?_⟩ <;> rw [get_prune] <;> simp [keepAtPrune]
+
 end OllamaVerif.StoreCrash
